@@ -111,8 +111,9 @@ def run(ctx):
     ctx.coverage.update({"real_calls": S.calls, "calls_compared_in_coq": len(S.lits), "float_stream_calls": n_float,
                          "distribution": dict(sorted(S.dist.items()))})
     ctx.evaluations = len(S.lits) + S.oracle_only
-    res = core.run_cases("c03", ca.PRELUDE, S.lits, ca.CASE_TYPE, ca.CHECK_EXPR, ca.EXPLAIN_EXPR,
-                         shard_size=2000 if thorough else 120)
+    shard = 2000 if thorough else 120
+    S.spread(shard)
+    res = core.run_cases("c03", ca.PRELUDE, S.lits, ca.CASE_TYPE, ca.CHECK_EXPR, ca.EXPLAIN_EXPR, shard_size=shard)
     ca.conclude(ctx, "C03", pr, S, res, THEOREMS, HOW)
 
 
